@@ -89,7 +89,8 @@ PROPS = {
         theorems=["C13_visits_the_storages_members", "C13_item_reads_its_own_index", "C13_direct_read_is_the_same",
                   "C13_other_entity_lookup", "C13_membership_unchanged", "C13_any_storage_kind",
                   "C13_writes_only_the_chosen_items", "C13_read_only_views_change_nothing",
-                  "C13_join_refines_the_join_on_maps"],
+                  "C13_join_refines_the_join_on_maps", "C13_event_only_for_items_fetched_mutably",
+                  "C13_reading_emits_nothing"],
         required="spec",
         nontrivial="history contains a join over a restricted storage with at least one item and one other-entity lookup",
     ),
